@@ -288,6 +288,28 @@ def check(ctx: Ctx) -> list[RuleResult]:
         r4.ok({"skips_finished_entries": "the dequeue loop is only left with a future that is not done; task_done() for the others"})
     else:
         r4.fail(f"{check_buf.short}:skip-finished", check_buf.loc(), "entries whose caller already gave up (future done) are no longer skipped: a command could be transmitted after its caller was answered")
+    # the dequeue is only ever *scheduled* from the idle state (both sites today: a new command arriving while idle, and the effect of
+    # having gone idle). A dequeue scheduled while a command is in flight runs later, when that command may just have been failed by
+    # its caller's timeout: the next command is then started in a state object that still carries the old command's headers, and is
+    # resolved with the old command's late echo
+    from .common import edge_implies as _ei8
+    from .common import expand as _ex8
+    from .common import facts_at as _fa8
+
+    sched = [(g2, n) for g2 in repo.funcs.values() if g2.module.name == F for n in own_nodes(g2.node) if isinstance(n, ast.Call) and isinstance(n.func, ast.Attribute) and n.func.attr in ("call_soon", "call_soon_threadsafe", "call_later", "create_task") and any(isinstance(a, ast.Attribute) and a.attr == check_buf.name for a in n.args)]
+    if not sched:
+        raise AnalysisError("no scheduling of _check_buffer_for_cmd found")
+    idle_goal = ast.parse("isinstance(self._state, IsInIdle)", mode="eval").body
+    for g2, n in sched:
+        r4.instances += 1
+        r4.nontrivial += 1
+        st8 = n
+        while not isinstance(st8, ast.stmt):
+            st8 = st8.parent  # type: ignore[attr-defined]
+        if any(_ei8(_ex8(g2.node, t, pure_only=False), v, idle_goal) for t, v in _fa8(st8)):
+            r4.ok({"dequeue_scheduled": f"{g2.short}: {norm(n)[:60]}", "only_when": "the state is IsInIdle"})
+        else:
+            r4.fail(f"{g2.short}:dequeue-scheduled-while-not-idle", g2.loc(n), f"`{norm(n)[:70]}` schedules the dequeue without the state being known to be IsInIdle: run after the in-flight command has been failed by its caller's timeout, it starts the next command in a state that still matches the old command's headers, so the new caller can be handed the old command's late echo")
     out.append(r4)
 
     # ---- R5 ---------------------------------------------------------------------------
@@ -413,21 +435,21 @@ def check(ctx: Ctx) -> list[RuleResult]:
     if not hops:
         raise AnalysisError("no call passes a qos down to ProtocolContext.send_cmd")
 
-    def _carried(g: FuncInfo, e: ast.expr, depth: int = 0) -> "str | None":
+    def _carried(g: FuncInfo, e: ast.expr, depth: int = 0, fld: str = "max_retries") -> "str | None":
         """why `e` still holds the retry budget g was given (None = it does not)"""
         gparams = {a.arg for a in g.node.args.posonlyargs + g.node.args.args + g.node.args.kwonlyargs}
         if isinstance(e, ast.BoolOp) and isinstance(e.op, ast.Or):
-            return _carried(g, e.values[0], depth)
+            return _carried(g, e.values[0], depth, fld)
         if isinstance(e, ast.Call) and norm(e.func).split(".")[-1] == "QosParams":
-            kw = next((k.value for k in e.keywords if k.arg == "max_retries"), None)
+            kw = next((k.value for k in e.keywords if k.arg == fld), None)
             if kw is None:
                 reads = [x for a in list(e.args) + [k.value for k in e.keywords] for x in ast.walk(a) if isinstance(x, ast.Attribute) and x.attr.lstrip("_") in ("timeout", "wait_for_reply", "max_retries")]
                 given = [k.arg for k in e.keywords if k.arg in gparams or any(isinstance(x, ast.Name) and x.id in gparams for x in ast.walk(k.value))]
-                if reads or ("max_retries" in gparams and given):
+                if reads or (fld in gparams and given):
                     return None  # rebuilt from what the caller gave, without its max_retries
                 return "a fresh QosParams (nothing of the caller's is involved)"
             names = {x.id for x in ast.walk(kw) if isinstance(x, ast.Name)} | {x.attr.lstrip("_") for x in ast.walk(kw) if isinstance(x, ast.Attribute)}
-            return "rebuilt with max_retries carried over" if "max_retries" in names else None
+            return f"rebuilt with {fld} carried over" if fld in names else None
         if isinstance(e, ast.Name):
             defs = [n for n in own_nodes(g.node) if isinstance(n, (ast.Assign, ast.AnnAssign)) and n.value is not None and any(isinstance(t, ast.Name) and t.id == e.id for t in (n.targets if isinstance(n, ast.Assign) else [n.target]))]
             if not defs:
@@ -437,22 +459,22 @@ def check(ctx: Ctx) -> list[RuleResult]:
             whys = []
             for d in defs:
                 # `qos = qos or DEFAULT` / `qos = QosParams(max_retries=qos.max_retries, ..)` refer to the previous binding
-                w = "the parameter itself" if (isinstance(d.value, ast.Name) and d.value.id == e.id) else _carried_value(g, d.value, e.id, depth)
+                w = "the parameter itself" if (isinstance(d.value, ast.Name) and d.value.id == e.id) else _carried_value(g, d.value, e.id, depth, fld)
                 if w is None:
                     return None
                 whys.append(w)
             return "; ".join(sorted(set(whys)))
         return "an expression that is not a QosParams rebuild"
 
-    def _carried_value(g: FuncInfo, v: ast.expr, self_name: str, depth: int) -> "str | None":
+    def _carried_value(g: FuncInfo, v: ast.expr, self_name: str, depth: int, fld: str = "max_retries") -> "str | None":
         if isinstance(v, ast.BoolOp) and isinstance(v.op, ast.Or) and isinstance(v.values[0], ast.Name) and v.values[0].id == self_name:
             return "the parameter itself (or the default when none was given)"
         if isinstance(v, ast.IfExp):
-            a, b = _carried_value(g, v.body, self_name, depth), _carried_value(g, v.orelse, self_name, depth)
+            a, b = _carried_value(g, v.body, self_name, depth, fld), _carried_value(g, v.orelse, self_name, depth, fld)
             return None if a is None or b is None else f"{a} | {b}"
         if isinstance(v, ast.Name) and v.id == self_name:
             return "the parameter itself"
-        return _carried(g, v, depth + 1)
+        return _carried(g, v, depth + 1, fld)
 
     for g, c, arg in hops:
         r6.instances += 1
@@ -466,6 +488,15 @@ def check(ctx: Ctx) -> list[RuleResult]:
             r6.fail(f"{g.short}:max_retries-overwritten", g.loc(over[0]), f"{g.short} overwrites max_retries on the QosParams it hands on (`{norm(over[0])[:70]}`)")
         else:
             r6.ok({"hop": f"{g.short} -> {norm(c.func)}", "qos_argument": norm(arg), "carried_because": why})
+        # the caller's timeout travels the same way (C07: a send ends within the caller's timeout): a rebuild that leaves it out
+        # silently gives the send the 20 s default
+        r6.instances += 1
+        r6.nontrivial += 1
+        why_t = _carried(g, arg, 0, "timeout")
+        if why_t is None:
+            r6.fail(f"{g.short}:qos-rebuilt-without-timeout", g.loc(c), f"{g.short} hands `{norm(arg)}` on to {norm(c.func)}(), but on some path that object is a QosParams rebuilt from the caller's values without its timeout: the send then runs against the default (20 s) instead of the caller's timeout, so it completes - or keeps retransmitting - long after the caller asked it to give up")
+        else:
+            r6.ok({"hop": f"{g.short} -> {norm(c.func)}", "timeout": why_t})
     out.append(r6)
 
     # ---- R7 ---------------------------------------------------------------------------
